@@ -429,7 +429,7 @@ class MarkovNetwork(UndirectedGraph):
             order = []
 
             cardinalities = self.get_cardinality()
-            for index in range(self.number_of_nodes()):
+            for index in range(graph_copy.number_of_nodes()):
                 # S represents the size of clique created by deleting the
                 # node from the graph
                 S = {}
